@@ -23,6 +23,8 @@ namespace occa {
 
       bool kernelHasValidReturnType(functionDeclStatement &kernelSmnt);
 
+      bool kernelHasNamedArguments(functionDeclStatement &kernelSmnt);
+
       bool kernelHasValidOklLoops(functionDeclStatement &kernelSmnt);
 
       bool outerLoopHasValidOklLoopOrdering(forStatement &outerMostForSmnt,
